@@ -213,7 +213,8 @@ Section conform.
     destruct (olookup o t v) as [y|e]; [auto|]. destruct e; try discriminate. rewrite Hc. discriminate.
   Qed.
 
-  Lemma build_object_conforms k d c params extra ps f mapping v :
+  (* the keyword arguments __init__ is called with conform, whether or not __init__ then accepts them *)
+  Lemma init_args_conform k d c params extra ps f mapping args :
     find_cls reg d = Some k -> c_shape k = ShObj params extra -> rsub reg d c -> c_abstract k = false ->
     str_keyed ps = true ->
     (forall p, In p params ->
@@ -221,8 +222,8 @@ Section conform.
        forall sub, lookup_all (p_name p) ps = [sub] -> well_tagged reg sub (p_ty p)) ->
     (forall n T x, well_tagged reg n T -> construct o reg f n = Ok x -> conforms reg x T) ->
     construct_map (S f) (construct o reg f) (strip_unknown (map p_name params) ps) = Ok mapping ->
-    build_object reg k params extra mapping = Ok v ->
-    conforms reg v (TClass c).
+    init_args reg params extra mapping = Some args ->
+    conforms reg (VObj d args) (TClass c).
   Proof.
     intros Hf Hsh Hsub Habs Hk Hattrs IH Hm Hb.
     assert (Hwf : wf_cls k).
@@ -233,14 +234,12 @@ Section conform.
     assert (Hk1 : str_keyed ps1 = true) by (unfold ps1; rewrite str_keyed_strip; exact Hk).
     unfold construct_map in Hm. rewrite (flatten_id _ _ (str_keyed_no_merge _ Hk1)) in Hm. cbn [bind] in Hm.
     pose proof (construct_pairs_kw _ (keys_as_text_construct o reg f) ps1 [] mapping Hk1 Hm) as Hkw.
-    unfold build_object in Hb. fold known in Hb.
+    unfold init_args in Hb. fold known in Hb.
     set (kw := kwargs_of mapping) in *.
     destruct (negb (forallb _ params)) eqn:C1; [discriminate|].
     apply negb_false_iff in C1. rewrite forallb_forall in C1.
     destruct (negb extra && negb (forallb _ kw)) eqn:C2; [discriminate|].
-    destruct (existsb _ kw) eqn:C3; [discriminate|].
-    destruct (c_init_ok k _) eqn:Ci; [|discriminate]. injection Hb as <-.
-    rewrite (find_cls_name _ _ _ Hf).
+    destruct (existsb _ kw) eqn:C3; [discriminate|]. injection Hb as <-.
     (* facts about kw *)
     assert (Hparam : forall p x, In p params -> uassoc (p_name p) kw = Some x -> conforms reg x (p_ty p)).
     { intros p x Hp Hx. destruct (Hkw _ _ Hx) as [(vn & Hin & Hc)|Hn]; [|discriminate].
@@ -282,6 +281,23 @@ Section conform.
           eapply Hextra; [exact Hn|]. apply nodup_assoc; [|exact Hi].
           eapply (construct_pairs_nodup _ (keys_as_text_construct o reg f) ps1 [] mapping Hk1 Hm). constructor.
       + left. eapply main_args_in; eauto.
+  Qed.
+
+  Lemma build_object_conforms k d c params extra ps f mapping v :
+    find_cls reg d = Some k -> c_shape k = ShObj params extra -> rsub reg d c -> c_abstract k = false ->
+    str_keyed ps = true ->
+    (forall p, In p params ->
+       (List.length (lookup_all (p_name p) ps) <= 1)%nat /\
+       forall sub, lookup_all (p_name p) ps = [sub] -> well_tagged reg sub (p_ty p)) ->
+    (forall n T x, well_tagged reg n T -> construct o reg f n = Ok x -> conforms reg x T) ->
+    construct_map (S f) (construct o reg f) (strip_unknown (map p_name params) ps) = Ok mapping ->
+    build_object reg k params extra mapping = Ok v ->
+    conforms reg v (TClass c).
+  Proof.
+    intros Hf Hsh Hsub Habs Hk Hattrs IH Hm Hb. unfold build_object in Hb.
+    destruct (init_args reg params extra mapping) as [args|] eqn:Ea; [|discriminate].
+    destruct (c_init_ok k args); [|discriminate]. injection Hb as <-.
+    rewrite (find_cls_name _ _ _ Hf). eapply init_args_conform; eauto.
   Qed.
 
   Theorem construct_conforms : forall fuel n T v,
